@@ -15,7 +15,12 @@ PROP = dict(
     ],
     rule=("exhaustive small scopes: all 24 wrappers {le,be,re} x {u16,s16,u32,s32,u64,s64,float,double} x 19 operations (construct, =, store, "
           "+= -= *= /= %= &= |= ^= <<= >>=, ++x x++ --x x--, copy, store_raw/load_raw) x 3 operand types (same type, int, int64_t/double) "
-          "x a 24..31-value boundary set for the initial value and for the operand; all 2^16 initial values of the six 16-bit wrappers x every "
+          "x a 24..31-value boundary set for the initial value and for the operand; chain: all 24 wrappers x chained expressions `(x op1 d1) op2 d2` "
+          "with op1 in {=, the ten compound assignments, ++x, --x} (the operators that yield the object itself on the native type) and op2 the same "
+          "plus x++ / x--, x 2 operand kinds x boundary values: stored bytes of the ORIGINAL object and value of the whole expression against the "
+          "same expression on a native variable (plus 120k rapidcheck cases); every operator is applied through a forwarding reference, so the harness "
+          "compiles whether an operator returns a reference or a value, and the value category / identity of the result (`returned-ref`) is decided at "
+          "run time; all 2^16 initial values of the six 16-bit wrappers x every "
           "operation x the operand set; every value of the 8/16-bit bswap forms and of every 8/16-bit sign_extend source for all wider results; "
           "all 2^24 arguments of ext24, bswap24, bswap24s; thorough: all 2^32 values through the nine 32-bit wrappers and the 32-bit "
           "bswap/sign_extend forms (-O2 stage). Sampled: rapidcheck cases (boundary-biased 64-bit patterns, float special values) and a dense "
@@ -29,8 +34,19 @@ PROP = dict(
           "tree (all src/*.hh except the -inl.hh parts) a probe program whose very first include is H, then Encoding.hh, and only then "
           "standard headers (plus the probe with Encoding.hh alone), compiled at -O0 and -O2; all 24 wrappers x 10-11 boundary bit patterns: "
           "sizeof, object bytes after construction / assignment / store(), load(), the conversion operator, and load() of memcpy'd bytes "
-          "against struct.pack in the named order (computed in Python)."),
+          "against struct.pack in the named order (computed in Python). The same probe calls the 50 functions of Encoding.hh (bswap8/16/24/24s/"
+          "32/48/48s/64, bswap32f/bswap64f both ways, bswap<> for the 12 specialisations, ext24, ext48, all 24 sign_extend<R,S> pairs) on "
+          "boundary values (also with garbage above the low N bits for the 24/48-bit forms): byte reversal, involution, sign extension, top-bit "
+          "replication against Python integers. Because Encoding.hh is header-only and is compiled at the CONSUMER's language level, the probes "
+          "with Encoding.hh / Platform.hh / Strings.hh first are additionally built with clang++ -std=c++2b, g++ -std=c++20 and g++ -std=c++23 "
+          "(thorough: every header), i.e. with and without the C++23 library (__cpp_lib_byteswap etc.); the configuration each probe saw "
+          "(__cplusplus, std::byteswap available) is recorded as a class."),
     assumptions=["include_order: a header that cannot be compiled as the first include of a translation unit is recorded under `excluded`, not judged",
+                 "include_order: language levels / compilers are those installed here (clang++ 14 and g++ 12 with libstdc++ 12: C++20 and C++23); a missing "
+                 "compiler is recorded under `excluded`",
+                 "= and the compound assignments must return an lvalue designating the object (as on the native type); ++x / --x may return either that "
+                 "or a scalar prvalue (the tree returns the new value by value: chained use then does not compile instead of misbehaving, which is counted "
+                 "as class `chain:not-expressible-on-the-wrapper`); x++ / x-- are compared by value only",
                  "little-endian host (the harness observes the host order at run time; big-endian hosts are not exercised)",
                  "harness and the wrapper templates instantiated in it are compiled with -fwrapv, so signed wrap-around is the same defined "
                  "operation on both sides",
@@ -42,7 +58,7 @@ PROP = dict(
     engine="rapidcheck + exhaustive enumerators",
     technique=("model-based property testing: each wrapper operation is executed on a wrapper placed at an odd address between guard bytes and on a "
                "native variable; object bytes (decoded independently in the named order), load()/conversion, the operator's return value and "
-               "reference identity are compared; bswap/sign_extend/extNN against std::reverse on a byte array and (x ^ m) - m; exhaustive "
+               "reference identity / value category are compared, chained operator expressions are compared with the same chain on the native type; bswap/sign_extend/extNN against std::reverse on a byte array and (x ^ m) - m; exhaustive "
                "small-scope enumeration + rapidcheck + dense pseudo-random sampling"),
     level_text=("Exploration: the real templates (ASan+UBSan build of the working tree, plus an -O2 build for the 2^32 sweeps) run against a native "
                 "reference; 8/16/24-bit scopes are enumerated completely (32-bit in the thorough tier), 48/64-bit domains are covered by boundary "
